@@ -123,6 +123,7 @@ class Fn:
         self.on_break = self.on_continue = None
         self.ncalls = 0
         self.notes = []
+        self.aux = []             # top-level Fixpoints of the loops, emitted in front of the function
         self.refbase = {}         # decl id of a `struct T *' local bound by a ref intrinsic -> base path name
         self.reftype = {}         # decl id -> record name
         self.rettype = decl["type"]["qualType"].split("(")[0].strip()
@@ -857,8 +858,8 @@ class Fn:
         tup = names[0] if len(names) == 1 else "(" + ", ".join(names) + ")"
         binders = " ".join("(%s : %s)" % (n, "Z -> Z" if kinds[n] == "arr" else "Z") for n in names)
         self.loopn += 1
-        lname = "loop%d" % self.loopn
-        again = "%s fuel_ %s" % (lname, " ".join(names))
+        again_marker = "@LOOP%d_%s@" % (self.loopn, self.name)
+        again = again_marker
         stop = ("Some (inl %s)" if rets else "Some %s") % tup
         saved = (self.on_break, self.on_continue)
         step_inc = (lambda: self.stmt(inc, lambda: again)) if inc is not None else (lambda: again)
@@ -874,10 +875,25 @@ class Fn:
         self.loop_rets.pop()
         self.loop_depth -= 1
         self.on_break, self.on_continue = saved
-        looptxt = ("(fix %s (fuel_ : nat) %s {struct fuel_} : option _ :=\n"
-                   "  match fuel_ with O => None | S fuel_ =>\n%s\n  end) fuel %s"
-                   % (lname, binders,
-                      self.wrap_pre(pre, "  if %s then\n%s\n  else %s" % (cnd, bodytxt, stop)), " ".join(names)))
+        # the loop becomes a top-level Fixpoint of its own (<function>_loopN): first the variables of the
+        # enclosing scope its body mentions (closure, passed unchanged), then the loop state
+        lname = "%s_loop%d" % (self.name, self.loopn)
+        guard = self.wrap_pre(pre, "  if %s then\n%s\n  else %s" % (cnd, bodytxt, stop))
+        guard = guard.replace(again_marker, "@AGAIN@")
+        known = dict((v.name, v.kind) for v in self.inputs)
+        for v in self.locals.values():
+            if v.kind != "bad":
+                known.setdefault(v.name, "Z")
+        known["fuel"] = "nat"
+        used = set(re.findall(r"[A-Za-z_][A-Za-z0-9_']*", guard))
+        closure = sorted(n for n in used if n in known and n not in names and n not in inner_decl)
+        ctype = {"arr": "Z -> Z", "Z": "Z", "ref": "Z", "nat": "nat"}
+        cbind = " ".join("(%s : %s)" % (n, ctype[known[n]]) for n in closure)
+        call_args = " ".join(closure + names)
+        guard = guard.replace("@AGAIN@", "%s fuel_ %s" % (lname, call_args))
+        self.aux.append("Fixpoint %s (fuel_ : nat) %s %s {struct fuel_} : option _ :=\n"
+                        "  match fuel_ with O => None | S fuel_ =>\n%s\n  end.\n" % (lname, cbind, binders, guard))
+        looptxt = "%s fuel %s" % (lname, call_args)
         pat = tup
         if rets:
             # a `return' inside the loop leaves the function (or the enclosing loop) with that value
@@ -1007,7 +1023,11 @@ def translate_function(tu, name, spec, done):
                                                    ("; returned with it, the final value of: " + ", ".join(w)) if w else "")
     for n in f.notes:
         hdr += "(* %s *)\n" % n
-    txt = hdr + "Definition %s %s :=\n%s.\n" % (name, " ".join(params), indent(body))
+    def fin(t):
+        t = t.replace(", @W@", "".join(", " + x for x in w))
+        return t.replace("(@W@)", ("(" + ", ".join(w) + ")") if len(w) > 1 else (w[0] if w else "tt"))
+    aux = "".join("(* %s:%s, loop %d *)\n%s\n" % (tu.path, name, i + 1, fin(a)) for i, a in enumerate(f.aux))
+    txt = aux + hdr + "Definition %s %s :=\n%s.\n" % (name, " ".join(params), indent(body))
     return f, txt
 
 
